@@ -22,6 +22,26 @@ def _k4():
     return cfg
 
 
+def _k4f():
+    """Group shrunk/removed while holders sit on frozen servers or on down
+    servers inside their retention period (seeded with two placed holders)."""
+    cfg = cellcfg.k4()
+    cfg['idgroups'] = {'g': 2}
+    cfg['templates']['ir'] = {'prio': 50, 'demand': [3, 3, 3], 'aff': 'r',
+                              'idg': 'g', 'ret': 30}
+    cfg['monitors'] = [cellmon.mon_c05]
+    cfg['events'] = cellcfg.ev(
+        ('add', 'ir'), ('add', 'id'), ('rm', 0), ('rm', 1),
+        ('idg', 'g', 0), ('idg', 'g', 1), ('idg', 'g', 2), ('idg', 'g', 3),
+        ('down', 's0'), ('up', 's0'), ('down', 's1'), ('up', 's1'),
+        ('frz', 's0', -1), ('frz', 's1', -1), ('frz', 's1', 0),
+        ('tick', 20), ('noop',),
+    )
+    cfg['seeds'] = [(('add', 'ir', True), ('add', 'id', True)),
+                    (('add', 'ir', True), ('add', 'ir', True))]
+    return cfg
+
+
 def _m1():
     """World B: identity_groups events, restarts (force_set_identity)."""
     cfg = mastercfg.m1()
@@ -59,10 +79,10 @@ def _m4():
 
 def configs(ctx):
     if ctx.quick:
-        return [('K4', _k4(), 4, 2),
+        return [('K4', _k4(), 4, 2), ('K4f', _k4f(), 3, 1),
                 ('M1', _m1(), 3, 1, _masterprop.MasterSpec),
                 ('M4', _m4(), 5, 0, _masterprop.MasterSpec)]
-    return [('K4', _k4(), 6, 2),
+    return [('K4', _k4(), 6, 2), ('K4f', _k4f(), 5, 1),
             ('M1', _m1(), 5, 2, _masterprop.MasterSpec),
             ('M4', _m4(), 8, 1, _masterprop.MasterSpec)]
 
